@@ -1,6 +1,7 @@
 package rsm
 
 import (
+	"github.com/lni/dragonboat/v4/client"
 	pb "github.com/lni/dragonboat/v4/raftpb"
 	sm "github.com/lni/dragonboat/v4/statemachine"
 )
@@ -232,6 +233,66 @@ func VHarness_C11_OnDiskRestart() {
 		if i < len(nodeB.ccs) {
 			vAssert(nodeA.ccs[i].rejected == nodeB.ccs[i].rejected && nodeA.ccs[i].cc.ReplicaID == nodeB.ccs[i].cc.ReplicaID, "ondisk-same-config-change-outcome")
 		}
+	}
+	vReach("done")
+}
+
+// C11 (on-disk state machine, batched apply path): the replayed tasks consist
+// of plain NoOP-session proposals only, so the concurrent state machine takes
+// the batched path (handleBatch); the task may start below, exactly at, or
+// above the index the state machine returned from Open.  No entry at or below
+// that index reaches the user state machine, every entry above it reaches it
+// exactly once and in order.
+//vcheck: reach=starts-at-open-index,starts-below,all-skipped,done workers=8 forbid=.
+func VHarness_C11_OnDiskBatchedReplay() {
+	n := 3
+	vInitResults(n)
+	var ents []pb.Entry
+	for i := 0; i < n; i++ {
+		idx := vBase + uint64(i)
+		ents = append(ents, pb.Entry{Type: pb.ApplicationEntry, Index: idx, Term: 5, Key: idx * 7,
+			ClientID: 77, SeriesID: client.NoOPSeriesID, Cmd: []byte{byte(idx)}}) // a NoOP session: any client id, series id 0
+	}
+	m := vChoose("ondiskinit", n+2) // open index = vBase-2 .. vBase+n-1
+	open := vBase - 2 + uint64(m)
+	nodeB, uB := &vNode{self: 1}, &vUSM{onDisk: true, concurrent: true, openIndex: open}
+	B := vNewSM(uB, nodeB, &vSnapshotter{}, 2)
+	B.index, B.term = vBase-1, 5
+	B.lastApplied.index, B.lastApplied.term = vBase-1, 5
+	_, err := B.OpenOnDiskStateMachine()
+	vAssert(err == nil, "noerr")
+	// one task, or two tasks split at a symbolic point
+	cut := vChoose("taskcut", n+1)
+	if cut > 0 && cut < n {
+		B.taskQ.Add(Task{Entries: ents[:cut]})
+		B.taskQ.Add(Task{Entries: ents[cut:]})
+	} else {
+		B.taskQ.Add(Task{Entries: ents})
+	}
+	_, err = B.Handle(make([]Task, 0, 4), make([]sm.Entry, 0, 4))
+	vAssert(err == nil, "noerr")
+	want := 0
+	for i := range ents {
+		if ents[i].Index > open {
+			want++
+		}
+	}
+	vAssert(len(uB.updates) == want, "U1-exactly-the-entries-above-the-open-index-are-delivered")
+	prev := open
+	for i := range uB.updates {
+		vAssert(uB.updates[i].index > open, "U1-ondisk-never-handed-entry-at-or-below-open-index")
+		vAssert(uB.updates[i].index > prev, "U1-strictly-increasing")
+		prev = uB.updates[i].index
+	}
+	vAssert(B.index == vBase+uint64(n)-1, "applied-index-reaches-the-end")
+	if open == vBase {
+		vReach("starts-at-open-index")
+	}
+	if open > vBase && want > 0 {
+		vReach("starts-below")
+	}
+	if want == 0 {
+		vReach("all-skipped")
 	}
 	vReach("done")
 }
